@@ -123,7 +123,19 @@ static ares_status_t ares_array_move(ares_array_t *arr, size_t dest_idx,
   const void *src_ptr;
   size_t      nmembers;
 
-  if (arr == NULL || dest_idx >= arr->alloc_cnt || src_idx >= arr->alloc_cnt) {
+  if (arr == NULL) {
+    return ARES_EFORMERR;
+  }
+
+  /* No members at or past src_idx, nothing to move.  This is the case when the
+   * array was emptied by removing from the front until offset reached the
+   * allocation size; the index checks below would otherwise reject it and the
+   * array could never be inserted into (or finished) again. */
+  if (src_idx >= arr->offset && src_idx - arr->offset >= arr->cnt) {
+    return ARES_SUCCESS;
+  }
+
+  if (dest_idx >= arr->alloc_cnt || src_idx >= arr->alloc_cnt) {
     return ARES_EFORMERR;
   }
 
